@@ -26,7 +26,9 @@ SPACES = {
     "thorough": [dict(nv=3, maxl=3, classes=("D", "U", "Ds")),
                  dict(nv=3, maxl=2, classes=("D", "U", "Ds", "Us", "O")),
                  dict(nv=4, maxl=2, classes=("D", "Us")),
-                 dict(nv=3, maxl=2, classes=("D", "U", "Ds"), mutations=True)],
+                 dict(nv=3, maxl=2, classes=("D", "U", "Ds"), mutations=True),
+                 dict(nv=3, maxl=4, minl=4, classes=("D", "Us")),
+                 dict(nv=2, maxl=6, minl=4, classes=("D", "U"))],
 }
 VCLS = {"plain": (Vertex, Vertex, Vertex, Vertex), "mixed": (Vertex, VA, VB, VA)}
 
